@@ -364,6 +364,24 @@ Theorem op_iadd_scalar : forall (c : T) (x t : nat) (s : store T),
     /\ s' x = map (fun e => e + c) (s x)
     /\ forall j, j <> x -> j <> t -> s' j = s j.
 Proof. exact (iadd_scalar_spec flg bdtf icast). Qed.
+Theorem op_isub_scalar : forall (c : T) (x t : nat) (s : store T),
+  t <> x -> length (s t) = length (s x) ->
+  exists s', w_isub_scalar flg bdtf icast sp (Leaf x) c (Leaf t) s = Ok s'
+    /\ s' x = map (fun e => e - c) (s x)
+    /\ forall j, j <> x -> j <> t -> s' j = s j.
+Proof. exact (isub_scalar_spec flg bdtf icast). Qed.
+Theorem op_itruediv_scalar : forall (c : T) (x : nat) (s : store T),
+  c <> nzero ->
+  yields (w_itruediv_scalar flg bdtf icast sp (Leaf x) c) s x (map (fun e => e / c) (s x)).
+Proof. exact (itruediv_scalar_spec flg bdtf icast). Qed.
+(* c / x:  tmp = one(); lincomb(c, tmp, out=tmp); divide(tmp, x, out=tmp) *)
+Theorem op_rtruediv_scalar : forall (c : T) (x t : nat) (s : store T),
+  t <> x -> length (s t) = length (s x) ->
+  yields (w_rtruediv_scalar flg bdtf icast sp (Leaf x) c (Leaf t)) s t (map (fun e => c / e) (s x)).
+Proof. exact (rtruediv_scalar_spec flg bdtf icast). Qed.
+Theorem op_set_zero : forall (x : nat) (s : store T),
+  yields (w_set_zero flg bdtf icast sp (Leaf x)) s x (map (fun _ => nzero) (s x)).
+Proof. exact (set_zero_spec flg bdtf icast). Qed.
 Theorem op_imul : forall (x y : nat) (s : store T),
   yields (w_imul flg bdtf icast sp (Leaf x) (Leaf y)) s x (vmul (s y) (s x)).
 Proof. exact (imul_spec flg bdtf icast). Qed.
